@@ -16,7 +16,9 @@ holds for both.
                           completion carried;
 * `C11_rekey_conserves`, `C11_tagged`   what enrichment does to content, tags and source;
 * `C11_immediate`        hits (and the empty source) leave in the same action and touch no parked state;
-* `C11_release`          after `info s _` nothing of `s` is parked and what was parked has been delivered;
+* `C11_release`          after `info s _` nothing of `s` is parked and what was parked has been handed over;
+* `C11_blocked_downstream`  a blocked downstream handler never stalls the stage: what is released meanwhile is
+                          held and reaches downstream, in order, at `unblock`; nothing is held otherwise;
 * `C11_parked_has_lookup`   parked(s) ≠ ∅ ⇒ s is waiting for the sink or in flight;
 * `C11_one_outstanding`  if completions only answer requests, every source has exactly one outstanding
                           lookup while something is parked for it and none otherwise;
@@ -94,11 +96,13 @@ variable {α : Type} [Add α]
 
 /-! ## immediate forwarding -/
 
-/-- **C11_immediate.**  (a) The entries of a batch whose source is a cache hit (or empty) leave in the same action,
-as one map, enriched with what the cache answered; (b) if the whole batch hits, nothing is parked and no lookup is
-requested; (c) an event whose source hits leaves in the same action, enriched, and nothing else changes. -/
-theorem C11_immediate (fix : Bool) (st : St α) (b : MM α) (e : Event) (pk : Peek) :
-    (step fix st (.arriveMetrics b pk)).delivered = st.delivered ++
+/-- **C11_immediate.**  `outbound` = what the stage has handed to downstream (`delivered`, plus `held` while
+downstream is blocked; `hh` holds in every reachable state, `C11_blocked_downstream`).  (a) The entries of a batch
+whose source is a cache hit (or empty) leave in the same action, as one map, enriched with what the cache answered;
+(b) if the whole batch hits, nothing is parked and no lookup is requested; (c) an event whose source hits leaves in
+the same action, enriched, and nothing else changes. -/
+theorem C11_immediate (fix : Bool) (st : St α) (b : MM α) (e : Event) (pk : Peek) (hh : st.blocked = false → st.held = []) :
+    outbound (step fix st (.arriveMetrics b pk)) = outbound st ++
       (if ((entries b).filter (fun x => isHit pk x.src)).isEmpty then []
        else [.metrics (rekeyEntries (instOf pk) ((entries b).filter (fun x => isHit pk x.src)))]) ∧
     ((∀ x ∈ entries b, isHit pk x.src = true) →
@@ -106,12 +110,15 @@ theorem C11_immediate (fix : Bool) (st : St α) (b : MM α) (e : Event) (pk : Pe
       (step fix st (.arriveMetrics b pk)).awaitingEvents = st.awaitingEvents ∧
       (step fix st (.arriveMetrics b pk)).toLookup = st.toLookup) ∧
     (∀ i, cacheView pk e.src = some i →
-      (step fix st (.arriveEvent e pk)).delivered = st.delivered ++ [.event (enrichEvent i e)] ∧
+      outbound (step fix st (.arriveEvent e pk)) = outbound st ++ [.event (enrichEvent i e)] ∧
       (step fix st (.arriveEvent e pk)).awaitingMetrics = st.awaitingMetrics ∧
       (step fix st (.arriveEvent e pk)).awaitingEvents = st.awaitingEvents ∧
       (step fix st (.arriveEvent e pk)).toLookup = st.toLookup) := by
   refine ⟨?_, ?_, ?_⟩
-  · rw [step_arriveMetrics, (foldl_parkEnt_frame fix _ _).1, afterHits_delivered]
+  · rw [step_arriveMetrics]
+    have := (afterHits_delivered st b pk hh).1
+    unfold outbound at this ⊢
+    rw [(foldl_parkEnt_frame fix _ _).1, (foldl_parkEnt_frame fix _ _).2.2.2.2.2.1, this]
   · intro hall
     have : (entries b).filter (fun x => !isHit pk x.src) = [] := by
       simp only [List.filter_eq_nil_iff]
@@ -120,18 +127,21 @@ theorem C11_immediate (fix : Bool) (st : St α) (b : MM α) (e : Event) (pk : Pe
     obtain ⟨e1, e2, e3, _⟩ := afterHits_frame st b pk
     exact ⟨e1, e2, e3⟩
   · intro i hi
-    refine ⟨?_, ?_, ?_, ?_⟩ <;> simp [step, hi]
+    refine ⟨?_, ?_, ?_, ?_⟩
+    · simp only [step, hi]
+      exact outbound_deliver ({ st with cacheHit := st.cacheHit + (countQueries pk [e.src]).1, cacheMiss := st.cacheMiss + (countQueries pk [e.src]).2 } : St α) _ hh
+    all_goals simp [step, hi]
 
 /-! ## release -/
 
-/-- **C11_release.**  In every reachable state, the completion of the lookup of `s` (whatever its result) delivers
-the parked map of `s` (enriched with the result, re-keyed) and then its parked events in order (enriched), and
-afterwards nothing of `s` is parked. -/
+/-- **C11_release.**  In every reachable state, the completion of the lookup of `s` (whatever its result) hands
+to downstream the parked map of `s` (enriched with the result, re-keyed) and then its parked events in order
+(enriched), and afterwards nothing of `s` is parked. -/
 theorem C11_release (fix : Bool) (as : List (Action α)) (s : String) (r : Option Inst) :
     let st := run fix as
     let st' := step fix st (.info s r)
     parked st' s = false ∧
-    st'.delivered = st.delivered ++
+    outbound st' = outbound st ++
       (match lookup s st.awaitingMetrics with
        | some m => [.metrics (rekeyEntries (fun _ => r) (entries m))]
        | none => []) ++
@@ -141,23 +151,83 @@ theorem C11_release (fix : Bool) (as : List (Action α)) (s : String) (r : Optio
   refine ⟨?_, ?_⟩
   · have := parked_release st s r hw s
     exact (by simpa using this : parked (releaseEvents (releaseMetrics st s r) s r) s = false)
-  · show (releaseEvents (releaseMetrics st s r) s r).delivered = _
+  · show outbound (releaseEvents (releaseMetrics st s r) s r) = _
+    have hw1 := wf_releaseMetrics st s r hw
     have hfr : (releaseMetrics st s r).awaitingEvents = st.awaitingEvents := by
-      unfold releaseMetrics; split <;> rfl
-    have h1 : (releaseMetrics st s r).delivered = st.delivered ++
+      unfold releaseMetrics; split <;> simp
+    have h1 : outbound (releaseMetrics st s r) = outbound st ++
         (match lookup s st.awaitingMetrics with
          | some m => [.metrics (rekeyEntries (fun _ => r) (entries m))]
          | none => []) := by
+      cases hm : lookup s st.awaitingMetrics with
+      | some m =>
+        simp only [releaseMetrics, hm]
+        exact outbound_deliver ({ st with awaitingMetrics := AList.erase s st.awaitingMetrics, metricHosts := st.metricHosts - 1 } : St α) _ hw.heldOK
+      | none => simp [releaseMetrics, hm]
+    have h2 : outbound (releaseEvents (releaseMetrics st s r) s r) = outbound (releaseMetrics st s r) ++
+        ((lookup s (releaseMetrics st s r).awaitingEvents).getD []).map (fun e => .event (enrichEvent r e)) := by
+      generalize releaseMetrics st s r = st1 at hw1 ⊢
+      cases hl : lookup s st1.awaitingEvents with
+      | none => simp [releaseEvents, hl]
+      | some l =>
+        cases l with
+        | nil => exact absurd rfl (hw1.neE s [] hl)
+        | cons x t =>
+          simp only [releaseEvents, hl, Option.getD_some]
+          exact outbound_deliver ({ st1 with awaitingEvents := AList.erase s st1.awaitingEvents, eventItems := st1.eventItems - ((x :: t).length : Int), eventHosts := st1.eventHosts - 1 } : St α) _ hw1.heldOK
+    rw [h2, h1, hfr]
+
+/-! ## a blocked downstream -/
+
+/-- **C11_blocked_downstream.**  In every reachable state: (a) nothing is held back unless downstream is blocked
+(so `outbound = delivered` whenever downstream is taking deliveries); (b) `unblock` hands downstream exactly what
+was held, in the order it was produced, and holds nothing afterwards; (c) while downstream is blocked no action
+other than `unblock` changes what downstream has taken — the owner loop goes on (all other theorems hold for
+sequences containing `block` / `unblock`: arrivals are parked, lookups requested, completions release into
+`held`). -/
+theorem C11_blocked_downstream (fix : Bool) (as : List (Action α)) :
+    let st := run fix as
+    (st.blocked = false → st.held = []) ∧
+    ((step fix st .unblock).delivered = st.delivered ++ st.held ∧ (step fix st .unblock).held = [] ∧
+      (step fix st .unblock).blocked = false ∧ outbound (step fix st .unblock) = outbound st) ∧
+    (st.blocked = true → ∀ a, a ≠ Action.unblock → (step fix st a).delivered = st.delivered) := by
+  intro st
+  have hw : WFst st := wf_run fix as
+  refine ⟨hw.heldOK, ⟨rfl, rfl, rfl, by simp [outbound, step]⟩, ?_⟩
+  intro hb a ha
+  have hdel : ∀ (x : St α) (ds : List (Delivery α)), x.blocked = true → (deliver x ds).delivered = x.delivered := by
+    intro x ds hx; unfold deliver; simp [hx]
+  cases a with
+  | arriveMetrics b pk =>
+    rw [step_arriveMetrics, (foldl_parkEnt_frame fix _ _).1]
+    unfold afterHits
+    simp only
+    split
+    · rfl
+    · exact hdel _ _ hb
+  | arriveEvent e pk =>
+    simp only [step]
+    split
+    · exact hdel _ _ hb
+    · rfl
+  | sendLookup => simp only [step]; split <;> rfl
+  | info s r =>
+    show (releaseEvents (releaseMetrics st s r) s r).delivered = st.delivered
+    have h1 : (releaseMetrics st s r).delivered = st.delivered ∧ (releaseMetrics st s r).blocked = true := by
       unfold releaseMetrics
-      split <;> simp_all
-    unfold releaseEvents
-    rw [hfr]
-    cases hl : lookup s st.awaitingEvents with
-    | none => simp [h1]
-    | some l =>
-      cases l with
-      | nil => exact absurd rfl (hw.neE s [] hl)
-      | cons x t => simp [h1]
+      split
+      · exact ⟨hdel _ _ hb, by simpa using hb⟩
+      · exact ⟨rfl, hb⟩
+    have h2 : ∀ (x : St α), x.blocked = true → (releaseEvents x s r).delivered = x.delivered := by
+      intro x hx
+      unfold releaseEvents
+      split
+      · exact hdel _ _ hx
+      · rfl
+    rw [h2 _ h1.2, h1.1]
+  | emit => rfl
+  | block => rfl
+  | unblock => exact absurd rfl ha
 
 /-! ## lookups -/
 
@@ -236,6 +306,11 @@ def rich : List (Action Int) :=
   [.arriveMetrics (MM.merge (cnt "h1" 1) (cnt "h2" 2)) hit1, .arriveEvent (ev "e1" "h2") miss,
    .arriveMetrics (cnt "h2" 5) miss, .sendLookup, .emit, .info "h2" (some i1), .emit]
 
+/-- downstream blocks while h2's two parked events are being released; h2 keeps sending; downstream resumes -/
+def stuck : List (Action Int) :=
+  [.arriveEvent (ev "e1" "h2") miss, .arriveEvent (ev "e2" "h2") miss, .sendLookup, .block, .info "h2" (some i1),
+   .arriveEvent (ev "e3" "h2") miss, .arriveEvent (ev "e4" "h2") miss, .sendLookup, .unblock, .info "h2" none]
+
 end C11ex
 open C11ex
 
@@ -272,5 +347,17 @@ example :
         [(("c", "az:b,region:r1,s:i-1"), { value := 7, ts := 1, src := "i-1", tags := ["az:b", "region:r1"] })] ] ∧
     deliveredEvents (run true rich) = [{ body := ["e1"], tags := ["t:1", "region:r1", "az:b"], src := "i-1" }] := by
   decide
+
+/-- `C11_blocked_downstream` on a concrete history: while downstream is blocked the completion releases into `held`
+(nothing reaches `delivered`), the stage goes on parking the newcomers and requests a second lookup; `unblock`
+delivers e1, e2 in order, the second completion e3, e4 — each once, the first two tagged -/
+example :
+    (run true (stuck.take 8)).delivered.length = 0 ∧ (run true (stuck.take 8)).held.length = 2 ∧
+    (run true (stuck.take 8)).sent = ["h2", "h2"] ∧ parked (run true (stuck.take 8)) "h2" = true ∧
+    (deliveredEvents (run true stuck)).map (fun e => (e.body, e.src)) =
+      [(["e1"], "i-1"), (["e2"], "i-1"), (["e3"], "h2"), (["e4"], "h2")] ∧
+    (run true stuck).held.length = 0 ∧ RunOK true init stuck := by
+  refine ⟨by decide, by decide, by decide, by decide, by decide, by decide, ?_⟩
+  unfold stuck; simp only [RunOK, EnvOK, and_true, true_and]; decide
 
 end Gsd
